@@ -96,7 +96,8 @@ add("C16", "CH",
     "For ALL type graphs / RPC type choices / non-empty allow-list subsets within the bound the kept messages, enums, "
     "services, methods and files equal the reference reachability closure (fields, nested types, enum-only file, "
     "other-file message, resource reference, LRO types), no dangling field type, dependency files untouched; internal "
-    "mode keeps everything and marks exactly the unlisted RPCs/services; unknown and other-version names rejected.",
+    "mode keeps everything and marks exactly the unlisted RPCs/services; unknown and other-version names rejected; a kept "
+    "extended-operation RPC keeps the polling method it needs (Compute-style API, both declaration orders, all allow-lists).",
     "DESIGN.md section 5 C16",
     "3 top-level messages, 6 cross edges, 3 structure variants quick (48 thorough), 3 RPCs in 2 services. The symbolic "
     "inputs only select the structure: path exploration with exhaustion proved by CrossHair/z3 (weakest solver use, "
@@ -108,11 +109,13 @@ add("C20", "BSTR",
     "Formatter: for ALL strings of two bounded families fix_whitespace is idempotent, ends with exactly one newline and "
     "changes only trailing blanks / blank lines (normal-form equality, the surrogate for 'AST unchanged'). Docstring "
     "guard: for ALL texts within the bound the real rst()+wrap() output cannot terminate a triple-quoted literal early "
-    "(Python tokenizer rule encoded in z3).",
+    "(Python tokenizer rule encoded in z3). Re-flow: for ALL texts of two bounded families and several (width, indent, "
+    "offset) settings the real wrap() never drops, duplicates or reorders a word (textwrap replaced by a validated model).",
     "DESIGN.md section 5 C20",
     "Family U: all strings <= 6 (quick) / 8 chars over an 8-character alphabet; family S: structured strings up to ~20 "
-    "chars; rst texts <= 6 / 8 chars. textwrap is replaced by a short-text model validated on each run; wrap()'s re-flow "
-    "clauses (words kept, width respected), the pandoc branch and Metadata.doc are outside the claim. Trusted: z3, sre "
+    "chars; rst and wrap texts <= 6 / 8 chars. textwrap is replaced by a step-by-step model validated against the real module on "
+    "each run; wrap()'s width clause, texts whose over-long first line has tabs/leading blanks (known finding F3), the pandoc "
+    "branch and Metadata.doc are outside the claim. Trusted: z3, sre "
     "parser, the BSTR engine (validated against the real functions on concrete strings every run).")
 
 add("C12", "BSTR+CH",
@@ -167,10 +170,10 @@ add("C08", "CH",
     "Generation-time clause and wiring: for ALL (output type, annotation present, response/metadata name kind) an "
     "un-annotated Operation method stays raw, an annotated one lacking a name is rejected, otherwise both types resolve "
     "relative to the method's package even from a file that is not imported; the emitted sync/async methods build the "
-    "future from the reply, the transport's operations client and exactly those classes.",
+    "future from the reply, the transport's operations client and exactly those classes; the emitted operations_client "
+    "properties bind the polling client to the instance's own channel / host, credentials and scopes.",
     "DESIGN.md section 5 C08",
-    "Type names from a menu of 6; polling histories, Any unpacking and the operations client itself are api_core/gRPC "
-    "behaviour and outside the claim.")
+    "Type names from a menu of 6; polling histories and Any unpacking are api_core/gRPC behaviour and outside the claim.")
 
 add("C15", "CH (+ concrete AST diff)",
     "CrossHair (z3) enumeration with solver-proved exhaustion over the real API.build + gapic_metadata / "
